@@ -35,11 +35,23 @@ def log(*a):
     print(*a, file=sys.stderr, flush=True)
 
 
+def _big_stack():
+    """the extracted model recurses over lists that are as long as the longest value (non-tail-recursive
+    structural recursion): give child processes the largest stack the system allows"""
+    import resource
+    try:
+        soft, hard = resource.getrlimit(resource.RLIMIT_STACK)
+        want = hard if hard != resource.RLIM_INFINITY else resource.RLIM_INFINITY
+        resource.setrlimit(resource.RLIMIT_STACK, (want, hard))
+    except (ValueError, OSError):
+        pass
+
+
 def run(cmd, cwd=None, timeout=3600, env=None, stdin=None, check=False):
     """Run a command, return (rc, stdout, stderr); rc 124 on timeout."""
     try:
         p = subprocess.run(cmd, cwd=cwd, env=env or GOENV, input=stdin, stdout=subprocess.PIPE,
-                           stderr=subprocess.PIPE, timeout=timeout, text=True, shell=isinstance(cmd, str))
+                           stderr=subprocess.PIPE, timeout=timeout, text=True, shell=isinstance(cmd, str), preexec_fn=_big_stack)
         rc, out, err = p.returncode, p.stdout, p.stderr
     except subprocess.TimeoutExpired as e:
         rc, out, err = 124, (e.stdout or b"").decode("utf8", "replace") if isinstance(e.stdout, bytes) else (e.stdout or ""), "timeout"
